@@ -1,5 +1,6 @@
 CONSTANTS
   MaxT = 2
+  VerifyCallbacks = {"csvdump"}
   Cap = 2
   AsIs = {}
   Scenarios <- MCScen
